@@ -1847,6 +1847,9 @@ func (t *http2Client) keepalive() {
 				outstandingPing = false
 				t.kpDormant = true
 				t.kpDormancyCond.Wait()
+				// Reads that happened while dormant are not a sign of life for
+				// the ping that is about to be sent.
+				prevNano = atomic.LoadInt64(&t.lastRead)
 			}
 			t.kpDormant = false
 			t.mu.Unlock()
